@@ -10,7 +10,8 @@ composition `Aurora/Model/NodeLite.lean` (`gc` feeds `gcEvict` with the pyramids
 `ChunkPyramid.getUnRepeatChunk`, i.e. the real chunkinfo), both tied to the real node by the C12
 correspondence run.
 
-The code VIOLATES the property in four designed-in ways (each confirmed on the real code by a
+The code VIOLATES the property in four designed-in ways and in one race (trigger 5,
+`C12_counterexample_pin_before_commit`) (each confirmed on the real code by a
 deterministic history, see the counterexample theorems and `notes/C12.md`).  Proved here, for all
 states / pyramids (no bound):
 
@@ -350,7 +351,7 @@ def raceWindow : State × State :=
 theorem C12_racing_pin_example :
     raceWindow.1.ls.gcRunning = true ∧ raceWindow.1.ls.cands.map (·.1.addr) = [10] ∧
     raceWindow.1.ls.dirty = [] ∧ raceWindow.2.ls.dirty.contains 10 = true ∧
-    (let r := gcRace raceCached 0 (10, fun w => apiPin w raceFile)
+    (let r := gcRace raceCached 0 ([10], fun w => apiPin w raceFile)
      r.2.2 = some 201 ∧ r.1.ls.db.pin.map (·.2) = [1, 1, 1, 1, 1] ∧
      [1, 2, 10, 11, 12].all (stored r.1) = true ∧ r.1.pinned = [10]) := by decide
 
@@ -373,10 +374,31 @@ theorem C12_hoisted_check_counterexample :
     (Aurora.Localstore.gcFinish (Aurora.Localstore.gcEvictOneHoisted w.1.ls.dirty run e pyr).1).st.db.data.map (·.1) = [] := by
   decide
 
+/-- history of trigger 5: two single-chunk files cached from the peer (pyramid exchange brings the
+    data chunk along): w = root 1, data chunk 2; x = root 5, data chunk 6; they share the manifest
+    node chunk 4 -/
+def trigger5 : State :=
+  let fw : FileInfo := { fs := { root := 1, subs := [[2]], hash := [1, 2, 3, 4] }, atP := true }
+  let fx : FileInfo := { fs := { root := 5, subs := [[6]], hash := [5, 6, 7, 4] }, atP := true }
+  findPyramid (findPyramid { files := [("w/c", fw), ("x/a", fx)] } fw.fs) fx.fs
+
+/-- Trigger 5 (confirmed on the real code, regression case `fix-race-pin-evicted-before-commit`):
+    the run collects all deletions in ONE batch committed after the last candidate.  `POST /pins` of
+    file w arriving while the run is in `DelFile` for the NEXT candidate x — after w's callback has
+    decided w's deletions, before the commit — succeeds (201), its pin entries exist afterwards and
+    the reference is listed, but the commit deletes w's chunks: pin counters positive, chunks gone.
+    The dirty re-check cannot help: w's callback is over. -/
+theorem C12_counterexample_pin_before_commit :
+    let fw : FileS := { root := 1, subs := [[2]], hash := [1, 2, 3, 4] }
+    let r := gcRace trigger5 0 ([1, 5], fun w => apiPin w fw)
+    trigger5.ls.db.gc.map (·.1.addr) = [1, 5] ∧ r.2.2 = some 201 ∧
+    [1, 2, 3].map (pinCount r.1) = [1, 1, 1] ∧ [1, 2, 3].map (stored r.1) = [false, false, false] ∧
+    r.1.pinned = [1] := by decide
+
 /-- without a racing operation firing, `gcr` is `gc` (here: on the four trigger histories) -/
 theorem C12_gcRace_unfired_eq_gc :
     [trigger1, trigger2, trigger3.2, trigger4].all (fun s =>
-      let a := gcRace s 0 (999, fun w => (w, 0))
+      let a := gcRace s 0 ([999], fun w => (w, 0))
       let b := gc s 0
       a.2.2 == none && a.2.1 == b.2 && a.1.ls.db == b.1.ls.db && a.1.cp == b.1.cp && a.1.ci == b.1.ci) = true := by
   decide
